@@ -507,8 +507,28 @@ func tagHandlerFailed() bool {
 //@   ensures __ghost("tagged") == old(__ghost("tagged"))
 //@   ensures c.state == old(c.state)
 
+// An ESEARCH response carries ALL only with a non-empty set: the encoder
+// refuses an empty number set, which would leave a half-written line behind.
+//
+//@ pure
+func numSetEmptySpec(numSet imap.NumSet) bool {
+	switch numSet := numSet.(type) {
+	case imap.SeqSet:
+		return len(numSet) == 0
+	case imap.UIDSet:
+		return len(numSet) == 0
+	}
+	return false
+}
+
+//@ func isNumSetEmpty(numSet imap.NumSet) (result bool)
+//@   props C04:post
+//@   panics assumed-unreachable imap.NumSet is implemented by SeqSet and UIDSet only (its marker method is unexported)
+//@   ensures result == numSetEmptySpec(numSet)
+
 //@ func (c *Conn) writeESearch(tag string, data *imap.SearchData, options *imap.SearchOptions) (err error)
-//@   props C04:post,pre@call
+//@   props C04:post,pre@call,callsite
+//@   callsite Encoder.NumSet(e *imapwire.Encoder, numSet imap.NumSet) requires !numSetEmptySpec(numSet)
 //@   ensures __ghost("tagged") == old(__ghost("tagged"))
 //@   ensures c.state == old(c.state)
 
